@@ -178,6 +178,9 @@ func (ex *Exec) registerIntrinsics() {
 	I["verif:veriftier"] = func(ex *Exec, st *State, _ *ssa.CallCommon, a []Value) []Outcome {
 		return ret1(st, tt.BV(uint64(ex.tier), 64))
 	}
+	I["verif:verifnative"] = func(ex *Exec, st *State, _ *ssa.CallCommon, a []Value) []Outcome {
+		return ret1(st, tt.Bool(false))
+	}
 	I["verif:verifnote"] = func(ex *Exec, st *State, _ *ssa.CallCommon, a []Value) []Outcome {
 		ex.assumes[ex.argStr(st, a[0])] = true
 		return ret1(st, nil)
